@@ -37,7 +37,7 @@ pub fn zoo_roundtrip<M: ZooMsg + ?Sized>(n: u32) -> Result<(), String> {
                 }
             }
             Ok(Err(e)) => return Err(format!("emplace of {:?} failed in a 8 KiB buffer: {:?}", v, e)),
-            Err(c) => return Err(format!("panic while emplacing/reading {:?}: {}", v, c.describe())),
+            Err(c) => return Err(format!("PANIC:{}|the library panicked while a valid value was emplaced / measured / read: {} ({})", c.site(), v.short(), c.describe())),
         }
     }
     if distinct.len() < 2 {
